@@ -614,11 +614,12 @@ func checkC15(c *Ctx) string {
 		c.Obl(r6+" (self-check)", funcName(fn)+" is seen to write through its receiver", "", eng.Mutates(fn, -1) != nil, "the effect analysis is blind")
 	}
 
+	checkChainBookkeeping(c, "C15.7 K14 chain bookkeeping of WriteChain")
 	return "Static shape of the generation-guarded path copying in util/hamt: every field/element store, copy and in-place append into a trie node is on a path where the node variable was " +
 		"assigned from &node{} or dup(), or has been compared equal to the generation parameter (with/without/pullUp), and that parameter is the Hamt's generation at every call; Mutable returns " +
 		"generation+positive constant with a fresh/dup'ed root stamped with it, Freeze keeps generation and root, no other code builds a Hamt with fields or assigns them; Put/Delete reach the " +
 		"trie only on the mutable edge; nodes returned by recursive descents are kept; dup re-allocates every slice field; no function of meta/hamt writes through an item obtained from " +
-		"Get/MustGet/All (K12 engine, see C02); WriteChain/Write/Freeze/Mutable do not write through their receiver. Not decided: bitmap/index arithmetic, chain write/read/flatten contents."
+		"Get/MustGet/All (K12 engine, see C02); WriteChain/Write/Freeze/Mutable do not write through their receiver. Chain.WriteChain folded for 0..8 chunks × every merge count × written/not: the returned offset is the head of the returned chain, the new chunk links to the last kept chunk, Ages is cut like Offs. Not decided: bitmap/index arithmetic, the bytes of a chunk, ReadChain/flatten contents."
 }
 
 // fields of an instantiated generic type are copies of the generic type's fields
